@@ -32,7 +32,7 @@ namespace {
 struct GClient { int c; std::string tr; bool alive = true; std::vector<JV> fetch_ids; bool owner_like = false; bool authed = false; };
 
 struct Gen {
-	double p_exact_size = 0.04; size_t elems_hint = 0; double p_nul = 0.004; std::map<std::string, double> last_num;
+	double p_exact_size = 0.04; size_t elems_hint = 0; double p_nul = 0.004; std::map<std::string, double> last_num; bool long_ids = false;
 	Rng r; Plan p; uint64_t uid = 0; int next_client = 0; uint64_t idctr = 0, valctr = 0;
 	std::vector<GClient> cl;
 	std::vector<std::string> paths;
@@ -74,8 +74,10 @@ struct Gen {
 	}
 	JV next_id() {
 		idctr++;
+		// some plans use long request ids throughout: ids that share their first 60-odd characters, now and then one that nearly fills the message
+		if (long_ids) { size_t L = r.chance(0.1) && g_variant.max_message >= 512 ? 330 + r.below(60) : 62 + r.below(12); return JV::str(std::string(L, 'q') + std::to_string(idctr)); }
 		if (r.chance(p_nul)) return JV::str(std::string("r") + std::to_string(idctr) + '\0' + "x");
-		if (r.chance(p_numid)) return JV::num((double)(1000 + idctr));
+		if (r.chance(p_numid)) return r.chance(0.05) ? JV::num(9007199254740000.0 + (double)idctr) : JV::num((double)(1000 + idctr));
 		return JV::str("r" + std::to_string(idctr));
 	}
 	JV fresh_value() {
@@ -89,6 +91,8 @@ struct Gen {
 		if (r.chance(p_nul)) return JV::str(std::string("nul") + '\0' + "inside" + std::to_string(valctr));   // an escaped NUL inside a string
 		// numbers that a conversion to int cannot tell apart (all in [7,8), or all beyond INT_MAX): still different values
 		if (r.chance(0.12)) return JV::num(r.chance(0.7) ? 7.0 + (double)(valctr % 1021) / 1024.0 : 3000000000.0 + (double)valctr);
+		// integers with 16 digits (below 2^53, so every one of them is a double): neighbours differ in the last digit only
+		if (r.chance(0.04)) return JV::num((r.chance(0.5) ? 9007199254740000.0 : 4503599627370400.0) + (double)(valctr % 900));
 		switch (r.below(8)) {
 		case 0: return JV::num((double)valctr);
 		case 1: return JV::str("s" + std::to_string(valctr));
@@ -231,6 +235,7 @@ struct Gen {
 		pol.set("delay", JV::num((double)dl[r.weighted(delay_w)]));
 		if (r.chance(0.1)) { pol.set("dup", JV::boolean(true)); pol.set("dupdelay", JV::num(r.chance(0.5) ? 0 : 1000000)); }
 		if (r.chance(0.1)) pol.set("forge", JV::boolean(true));
+		if (r.chance(0.08)) pol.set("expand", JV::num((double)(20 + r.below(70))));   // results made of numbers that are short on the wire (1e14) and long when printed in full
 		o.a.set("policy", pol);
 		if (r.chance(0.3)) o.a.set("rdcap", JV::num((double)(1 + r.below(r.chance(0.5) ? 7 : 64))));
 		if (p_conn_fault > 0 && r.chance(p_conn_fault)) {
@@ -554,6 +559,16 @@ struct Gen {
 			if (r.chance(0.2)) u.set("readonly", JV::boolean(true));
 			users.set(name, u);
 		}
+		if (nu >= 1 && r.chance(0.2)) {
+			// two accounts whose names differ only in the case of letters are two accounts: each has its own password and its own groups
+			std::string name = r.chance(0.5) ? "UserA" : "USERA"; JV u = JV::obj();
+			std::string pw = "pw-" + name + "-" + std::to_string(r.below(1000000) + 1000000);
+			u.set("password", JV::str(pw)); user_pw[name] = pw; user_names.push_back(name);
+			u.set("hash", JV::str(r.chance(0.5) ? "des" : "md5"));
+			for (const char *k : {"fetchGroups", "setGroups", "callGroups"}) { JV a = JV::arr(); int n = (int)r.below(3); for (int j = 0; j < n; j++) a.push(JV::str(groups[r.below(groups.size())])); u.set(k, a); for (auto &x : a.a) user_rights[name][k].push_back(x.s); if (a.a.empty()) user_rights[name][k]; }
+			// in front of or behind its namesake in the file
+			if (r.chance(0.5)) { JV nu2 = JV::obj(); nu2.set(name, u); for (auto &kv : users.o) nu2.set(kv.first, kv.second); users = nu2; } else users.set(name, u);
+		}
 		if (r.chance(0.3)) {
 			// an account nobody can log into: the stored "hash" is a lock marker, empty, or only a salt - no password produces it. It holds every group.
 			static const char *lk[] = {"*", "", "!", "salt", "salt", "x"};
@@ -626,6 +641,7 @@ void base_paths(Gen &g) {
 
 void swarm_common(Gen &g, const std::string &profile) {
 	Rng &r = g.r;
+	g.long_ids = (profile == "c03" || profile == "c02b" || profile == "base" || profile == "c05" || profile == "c14") && mix64(g.p.seed, 0x10D5) % 16 == 0;
 	g.p_hold = r.chance(0.5) ? 0 : r.unit() * 0.6;
 	g.seg_style = (int)r.below(3); g.p_seg = r.chance(0.3) ? 1.0 : r.unit();
 	g.p_noid = r.chance(0.5) ? 0.05 : 0.3; g.p_numid = r.unit() * 0.6; g.p_batch = r.chance(0.5) ? 0 : 0.15;
